@@ -95,6 +95,13 @@ def run(name, unit_src, flags, body, pre="", use_models=(), extra_flags=()):
             if re.match(r"ret i\d+ (true|false)$", lines[0]):
                 out[fn] = 1 if "true" in lines[0] else 0
                 continue
+        # straight-line body (no branch) ending in a constant return: side effects such as `errno = EINVAL` do not make the
+        # returned value less constant
+        if lines and not any(l.startswith("br ") or l.startswith("switch ") or l.startswith("indirectbr") for l in lines):
+            r = re.match(r"ret i(\d+) (-?\d+)$", lines[-1])
+            if r:
+                out[fn] = int(r.group(2))
+                continue
         out[fn] = None
     return out
 
